@@ -18,6 +18,7 @@ CONSTANTS
   KeepDead = TRUE
   Miu <- MiuAB
   Lens = {1}
+  InsertLast = FALSE
   HdrInMiu = FALSE
 VIEW View
 INVARIANT OneAddrPerSocket
@@ -25,6 +26,7 @@ INVARIANT NoDoubleAlloc
 INVARIANT RangesRespected
 INVARIANT FreedOnLastClose
 INVARIANT Datagram
+INVARIANT LiveFirst
 PROPERTY ResolveRight
 PROPERTY InUseRight
 PROPERTY ConnectByName
